@@ -349,7 +349,10 @@ func (g *gen) source() string {
 func generate(seed int64, i int) (ext string, src []byte, partials map[string][]byte) {
 	r := rand.New(rand.NewSource(seed*1000003 + int64(i)*7919 + 17))
 	g := &gen{r: r, ext: exts[r.Intn(len(exts))]}
-	g.shifting = r.Intn(4) == 0
+	// Markdown: a tab or four spaces at a line start open a code block context, in
+	// which a macro call or render is re-indented line by line; like the
+	// context-shifting templates, Markdown templates have no macro call/render
+	g.shifting = r.Intn(4) == 0 || g.ext == ".md"
 	partials = map[string][]byte{}
 	if r.Intn(3) == 0 {
 		g.partial = "part" + g.ext
